@@ -310,23 +310,39 @@ class _EvaluatorCompiler:
     visit_ge_binary_op = _straight_evaluate
     visit_eq_binary_op = _straight_evaluate
 
+    def _evaluate_in(self, eval_left, eval_right, negate):
+        # SQL semantics: "x IN ()" is FALSE and "x NOT IN ()" is TRUE even
+        # for a NULL x; otherwise a NULL x gives NULL; a match gives TRUE;
+        # no match gives NULL if the list has a NULL member, else FALSE.
+        def evaluate(obj):
+            left_val = eval_left(obj)
+            right_val = eval_right(obj)
+            if left_val is _EXPIRED_OBJECT or right_val is _EXPIRED_OBJECT:
+                return _EXPIRED_OBJECT
+            elif right_val is None or left_val is _NO_OBJECT:
+                return None
+
+            if not right_val:
+                result = False
+            elif left_val is None:
+                return None
+            elif left_val in right_val:
+                result = True
+            elif any(member is None for member in right_val):
+                return None
+            else:
+                result = False
+            return not result if negate else result
+
+        return evaluate
+
     def visit_in_op_binary_op(self, operator, eval_left, eval_right, clause):
-        return self._straight_evaluate(
-            lambda a, b: a in b if a is not _NO_OBJECT else None,
-            eval_left,
-            eval_right,
-            clause,
-        )
+        return self._evaluate_in(eval_left, eval_right, False)
 
     def visit_not_in_op_binary_op(
         self, operator, eval_left, eval_right, clause
     ):
-        return self._straight_evaluate(
-            lambda a, b: a not in b if a is not _NO_OBJECT else None,
-            eval_left,
-            eval_right,
-            clause,
-        )
+        return self._evaluate_in(eval_left, eval_right, True)
 
     def visit_concat_op_binary_op(
         self, operator, eval_left, eval_right, clause
